@@ -70,6 +70,8 @@ def rebuild(fm, desc, order=None, extra=None, delta=None, pos=None, extra_shift=
             kw['delta'] = d
     if desc['delta_mode'] == 'groups':
         kw['delta_groups'] = {}
+        if desc.get('groups_array') and order is not None:
+            kw['delta_groups'] = np.array(fm.delta_groups, dtype=float)[order].copy()     # user array, relabelled
     if desc['peneloux']:
         ud = dict(fm.user_data)
         if extra is not None and extra not in ud and extra_shift:
@@ -132,6 +134,8 @@ def run(ctx, lean_ok):
         ctx.sample(case)
         ctx.nontrivial.add((tuple(comp), tuple(order), d['delta_mode'], round(T, 2), round(math.log(P), 2)))
         ctx.count('%s:n%d%s' % (d['delta_mode'], n, ':pen' if d['peneloux'] else ''))
+        if d.get('groups_array'):
+            ctx.count('groups:user-array')
         pos = r.randint(0, n)        # the zero-mass compound is inserted anywhere, also FIRST
         extra_shift = (not d.get('peneloux_partial')) or r.random() < 0.5
         case.update(zero_position=pos, peneloux_partial=bool(d.get('peneloux_partial')), extra_shift=extra_shift)
